@@ -133,10 +133,12 @@ def run(ctx):
                 "coalesced flights or after a key change).")
     ctx.assumptions = ["keys are supplied by a complete key-log file for every cut (a cut that removes a later DSB is the C03 "
                        "missing-keys fault)"]
-    ctx.prove(["TLX.Props.C08", "TLX.Props.C05"])
-    ctx.require_theorems(THEOREMS)
+    import session_corr
+    ctx.prove(["TLX.Props.C08", "TLX.Props.C05", "TLX.Props.C08Session"])
+    ctx.require_theorems(THEOREMS + session_corr.THEOREMS_C08)
     import c06_model
     c06_model.run_model(ctx)          # ties TLX.TcpOut to the real OutputBuilder
+    session_corr.correspond(ctx)      # ties TLX.Session to the real Session
     explore(ctx)
     return ctx.finish(search=lambda c: explore(c, scale=2))
 
